@@ -261,3 +261,9 @@ def c05():
                   "set projecting exactly onto the specification's Locs; TLC checks on the model that a location whose change alters the value lies in Locs "
                   "(invariant Sensitive). non-trivial = edge whose target expression has an operator node",
                   _expr_plans(q), tags=["C05"], modes=("compiled",) if q else ("compiled", "pure"), hashseeds=(0,))
+
+
+@prop("C06")
+def c06():
+    from . import paths_engine
+    return paths_engine.c06()
